@@ -6,6 +6,21 @@ PROPS = ['C%02d' % i for i in range(1, 21)]
 BASELINE = "cd /repo && /venv/bin/python -m pytest -ra -q -p no:cacheprovider --timeout=900 --continue-on-collection-errors"
 
 CLAIMED = {
+ 'C19': dict(
+    category='proof',
+    text="Rocq theorems: C19_fdf_roundtrip / C19_fdf_entry_roundtrip - for EVERY list of (field name, value) byte strings (any mix of "
+         "parentheses, backslashes, quotes, CR/LF, any length) the text written by the model of _create_fdf is read back by a reader of "
+         "the PDF literal-string syntax (ISO 32000-1 7.3.4.2: nesting, all escapes, octal, line continuation, EOL normalisation) as exactly "
+         "the mapped text; C19_fill_selection - the forms filled are a duplicate-free permutation of the forms that need filing, sorted by "
+         "(jurisdiction, sequence number) (stable insertion sort, proved sorted); too-long and bad-choice values raise, fitting values are "
+         "never altered. Tie: the model writer is compared byte for byte with the real _create_fdf on adversarial data. Search: real "
+         "solutions with adversarial text in the string inputs are filled with a stand-in pdftk; every captured FDF is decoded by an "
+         "independent reader and compared with the mapped text; forms filled/order/cat command checked.",
+    design_ref='DESIGN.md §4 C19',
+    note="pdftk is replaced by a capturing stand-in; encoding of non-ASCII text is outside the property. needs_filing() bodies are Python, "
+         "exercised not modelled. Print Assumptions: closed under the global context.",
+    technique='Rocq proofs (induction on strings/lists) over a byte-level model of the FDF writer and the PDF string reader + byte-exact correspondence',
+ ),
  'C12': dict(
     category='proof',
     text="Rocq theorems over Forms.typed_value / line_value (the model of TypedField.value and FloatField.value): C12_typed_value_typed "
